@@ -57,12 +57,16 @@ def run(chk, binary):
         text = gen_text(rng)
         pat = rng.choice(PATTERNS)
         flag = rng.choice(["-g", "-g", "-v"])
-        variant = rng.choice(["mark", "cut", "else", "tally", "top"])
+        variant = rng.choice(["mark", "cut", "else", "tally", "top", "nested"])
+        pat2 = rng.choice(PATTERNS)
         if variant == "tally":
             # the scope also edits the first line each time: the lines still to be visited move
             argv = [flag, pat, "-m", "I#<esc>", "-m", "ggA|<esc>", "--end"]
         elif variant == "top":
             argv = [flag, pat, "-m", "I#<esc>", "-m", "ggOnew<esc>", "--end"]
+        elif variant == "nested":
+            # a scope of its own in the --else branch: it runs (once) only when the outer set is empty
+            argv = [flag, pat, "-m", "I#<esc>", "--else", "-g", pat2, "-m", "I%<esc>", "--end", "--end"]
         elif variant == "mark":
             argv = [flag, pat, "-m", "I#<esc>", "--end"]
         elif variant == "cut":
@@ -70,12 +74,12 @@ def run(chk, binary):
         else:
             argv = [flag, pat, "-m", "I#<esc>", "--else", "-m", "ggI!<esc>", "--end"]
         jobs.append({"args": argv, "stdin": text})
-        meta.append((text, pat, flag, variant, argv))
+        meta.append((text, pat, flag, variant, argv, pat2))
     res = cli_map(binary, jobs)
-    dist = {"mark": 0, "cut": 0, "else": 0, "tally": 0, "top": 0, "final_newline": 0, "empty_lines": 0, "multibyte": 0, "else_taken": 0}
+    dist = {"mark": 0, "cut": 0, "else": 0, "tally": 0, "top": 0, "nested": 0, "final_newline": 0, "empty_lines": 0, "multibyte": 0, "else_taken": 0}
     mcases = []
     mmeta = []
-    for (text, pat, flag, variant, argv), (rc, out, err) in zip(meta, res):
+    for (text, pat, flag, variant, argv, pat2), (rc, out, err) in zip(meta, res):
         chk.count(("c13", text, pat, flag, variant), nontrivial=len(ref_lines(text)) >= 2)
         dist[variant] += 1
         if text.endswith("\n"):
@@ -95,7 +99,7 @@ def run(chk, binary):
             chk.violation("spec:run failed", dict(case, stderr=err.decode(errors="replace")[-300:]))
             continue
         sout = out.decode("utf-8", errors="replace")
-        if variant in ("mark", "else", "tally", "top"):
+        if variant in ("mark", "else", "tally", "top", "nested"):
             # every visited line gets '#' before its first non-blank character, no other line changes
             exp_lines = []
             for i, l in enumerate(lines):
@@ -104,6 +108,15 @@ def run(chk, binary):
                     exp_lines.append(l[:k] + "#" + l[k:])
                 else:
                     exp_lines.append(l)
+            if variant == "nested" and not want:
+                try:
+                    want2 = [i for i, l in enumerate(lines) if re.search(pat2, l)]
+                except re.error:
+                    continue
+                exp_lines = []
+                for i, l in enumerate(lines):
+                    k = len(l) - len(l.lstrip(" \t"))
+                    exp_lines.append(l[:k] + "%" + l[k:] if i in want2 else l)
             if variant == "tally" and want:
                 exp_lines[0] += "|" * len(want)
             if variant == "top":
